@@ -24,6 +24,8 @@ Section AbsPos.
   Definition block_area (ct : Container) : Size T * Point T := block_abs_area (ct_size ct) (ct_border ct) (ct_gutter ct).
   Definition abs_block (ct : Container) (static_position : Point T) (i : AbsIn T) (measure : Size (option T) -> Size T) : AbsOut T :=
     block_child (fst (block_area ct)) (snd (block_area ct)) static_position i measure.
+  Definition abs_block_place (ct : Container) (static_position : Point T) (i : AbsIn T) (measured : Size T) : AbsOut T :=
+    block_place (fst (block_area ct)) (snd (block_area ct)) static_position i measured.
   Definition abs_block_style (ct : Container) (static_position : Point T) (st : AbsStyle T) measure : AbsOut T :=
     abs_block ct static_position (block_resolve (fst (block_area ct)) (snd (block_area ct)) st) measure.
 
@@ -34,6 +36,7 @@ Section AbsPos.
     let cbi := mkRect (r_left pb) (add (r_right pb) (p_x (ct_gutter ct))) (r_top pb) (add (r_bottom pb) (p_y (ct_gutter ct))) in
     mkFlexConstants (ct_size ct) (ct_border ct) (ct_gutter ct) cbi dir (fd_is_row dir) wrap_reverse justify_content align_items.
   Definition abs_flex (c : FlexConstants T) (i : AbsIn T) measure : AbsOut T := flex_child c i measure.
+  Definition abs_flex_place (c : FlexConstants T) (i : AbsIn T) (measured : Size T) : AbsOut T := flex_place c i measured.
   Definition abs_flex_style (c : FlexConstants T) (st : AbsStyle T) measure : AbsOut T := flex_child c (flex_resolve c st) measure.
 
   (* ---- grid: align_and_position_item(tree, child, order, grid_area, container_alignment_styles, 0.0) with the area of a
@@ -41,6 +44,8 @@ Section AbsPos.
   Definition grid_area_of (ct : Container) : Rect T := grid_abs_area (ct_size ct) (ct_border ct) (ct_gutter ct).
   Definition abs_grid (ct : Container) (justify_items align_items : option AlignItems) (i : AbsIn T) measure : AbsOut T :=
     grid_child (grid_area_of ct) (mkInBoth justify_items align_items) zero i measure.
+  Definition abs_grid_place (ct : Container) (justify_items align_items : option AlignItems) (i : AbsIn T) (measured : Size T) : AbsOut T :=
+    grid_place (grid_area_of ct) (mkInBoth justify_items align_items) zero i measured.
   Definition abs_grid_style (ct : Container) (justify_items align_items : option AlignItems) (st : AbsStyle T) measure : AbsOut T :=
     abs_grid ct justify_items align_items (grid_resolve (grid_area_of ct) st) measure.
 
